@@ -32,6 +32,7 @@ type replay struct {
 	Served  []smap `json:"served"`
 	Keys    []int  `json:"keys"`   // arrival rank inside the batch
 	Delay   int    `json:"delay"`  // microseconds per rank (0 = free running)
+	Forced  bool   `json:"forced"` // the arrival order given by Keys is enforced: an answer is held back until the callback of the offset with the previous rank in the batch ran (the callback follows the locked validation)
 	CbFail  []int  `json:"cb_fail"`
 	Break   string `json:"break"`
 	BreakAt int    `json:"break_at"`
@@ -102,6 +103,32 @@ func runCase(rp replay) (oc outcome) {
 		}
 	}
 	var ncb int64
+	// forced arrival order
+	offsetOf := map[string]int{}
+	for i, m := range served {
+		if m != nil {
+			offsetOf[fmt.Sprintf("%d/%s", m.Manifest().Height(), m.Manifest().Hash())] = i
+		}
+	}
+	returned := make([]chan struct{}, len(served))
+	validated := make([]chan struct{}, len(served))
+	var vonce []sync.Once = make([]sync.Once, len(served))
+	for i := range returned {
+		returned[i] = make(chan struct{})
+		validated[i] = make(chan struct{})
+	}
+	predOf := func(i int) int {
+		if !rp.Forced || i < 0 || i >= len(rp.Keys) || rp.Keys[i] == 0 {
+			return -1
+		}
+		lo := (i / rp.Limit) * rp.Limit
+		for j := lo; j < lo+rp.Limit && j < len(rp.Keys); j++ {
+			if rp.Keys[j] == rp.Keys[i]-1 {
+				return j
+			}
+		}
+		return -1
+	}
 	defer func() {
 		if r := recover(); r != nil {
 			oc.panicked = true
@@ -114,6 +141,19 @@ func runCase(rp replay) (oc outcome) {
 			if rp.Delay > 0 && i >= 0 && i < len(rp.Keys) {
 				time.Sleep(time.Duration(rp.Keys[i]*rp.Delay) * time.Microsecond)
 			}
+			if j := predOf(i); j >= 0 && j < len(returned) {
+				select {
+				case <-returned[j]:
+					select {
+					case <-validated[j]:
+					case <-time.After(30 * time.Millisecond): // the predecessor failed
+					}
+				case <-time.After(2 * time.Second):
+				}
+			}
+			if i >= 0 && i < len(returned) {
+				defer close(returned[i])
+			}
 			if i < 0 || i >= len(served) || served[i] == nil {
 				return nil, errFetch
 			}
@@ -121,6 +161,9 @@ func runCase(rp replay) (oc outcome) {
 		},
 		func(m base.BlockMap) error {
 			atomic.AddInt64(&ncb, 1)
+			if i, ok := offsetOf[fmt.Sprintf("%d/%s", m.Manifest().Height(), m.Manifest().Hash())]; ok {
+				vonce[i].Do(func() { close(validated[i]) })
+			}
 			// the callback gets the map that was served for some offset; fail by requested offset
 			for _, i := range rp.CbFail {
 				if i < len(served) && served[i] != nil && served[i].Manifest().Hash().Equal(m.Manifest().Hash()) &&
@@ -223,7 +266,10 @@ func main() {
 		if rp.Size > 0 && rp.Size%rp.Limit == 0 {
 			res.Dist("size_multiple_of_limit")
 		}
-		short := replay{Prev: rp.Prev, Size: rp.Size, Limit: rp.Limit, Served: rp.Served, Keys: rp.Keys, Delay: rp.Delay, CbFail: rp.CbFail, Break: rp.Break, BreakAt: rp.BreakAt}
+		short := replay{Prev: rp.Prev, Size: rp.Size, Limit: rp.Limit, Served: rp.Served, Keys: rp.Keys, Delay: rp.Delay, Forced: rp.Forced, CbFail: rp.CbFail, Break: rp.Break, BreakAt: rp.BreakAt}
+		if rp.Forced {
+			res.Dist("forced_order")
+		}
 		switch {
 		case oc.panicked:
 			res.Fail("panic", oc.errtext, short)
@@ -347,6 +393,53 @@ func main() {
 	do(mk(1, 1, true, "", 0, 0), "corpus")
 	do(mk(1, 3, false, "wrong-prev-map", 0, 0), "corpus")
 
+	// exhaustive: every (enforced) arrival order of a batch of 3 and of 4 x a single break at every
+	// position (a splice to a consistent foreign chain: only the link at that position is wrong)
+	var permsOf func(n int) [][]int
+	permsOf = func(n int) [][]int {
+		if n == 1 {
+			return [][]int{{0}}
+		}
+		var out [][]int
+		for _, p := range permsOf(n - 1) {
+			for k := 0; k <= len(p); k++ {
+				out = append(out, append(append(append([]int{}, p[:k]...), n-1), p[k:]...))
+			}
+		}
+		return out
+	}
+	for _, n := range []int{3, 4} {
+		for _, genesis := range []bool{false, true} {
+			for _, perm := range permsOf(n) {
+				for at := -1; at < n; at++ {
+					for _, lim := range []int{n, n + 2} {
+						brk := "foreign-tail"
+						a := at
+						if at < 0 {
+							brk, a = "", 0
+						}
+						rp := mk(n, lim, genesis, brk, a, 0)
+						rp.Keys = append([]int{}, perm...)
+						rp.Forced = true
+						do(rp, "forced-exhaustive")
+					}
+				}
+			}
+		}
+	}
+	for _, perm := range permsOf(3) { // two batches of 3, same order in both, splice at every position
+		for at := -1; at < 6; at++ {
+			brk, a := "foreign-tail", at
+			if at < 0 {
+				brk, a = "", 0
+			}
+			rp := mk(6, 3, false, brk, a, 0)
+			rp.Keys = append(append([]int{}, perm...), perm...)
+			rp.Forced = true
+			do(rp, "forced-exhaustive")
+		}
+	}
+
 	breaks := []string{"wrong-previous", "previous-of-grandparent", "height-minus-1", "height-plus-1", "height-only",
 		"swapped", "missing", "foreign", "foreign-tail", "callback", "wrong-prev-map"}
 	n := o.Pick(800, 16000)
@@ -390,7 +483,11 @@ func main() {
 				}
 			}
 		}
-		do(mk(size, limit, r.Chance(1, 3), brk, at, delay), "random")
+		rp := mk(size, limit, r.Chance(1, 3), brk, at, delay)
+		if delay == 0 && size <= 60 && r.Chance(1, 2) {
+			rp.Forced = true
+		}
+		do(rp, "random")
 	}
 
 	res.ModelCases = cases.Len()
